@@ -29,7 +29,7 @@ def run(tier, seed):
     ck.proof = lib.proof_step('props/C15.v', CONE)
     ck.broken += ck.proof['broken']
     if not ck.proof['driver_ok']:
-        return ck.finish(rule='driver unavailable')
+        ck.notes['driver'] = 'unavailable: model-side runs skipped, searching with the implementation-side oracles only'
     import soupsieve as sv
     from soupsieve import css_parser as cp, css_types as ct
     from bs4 import BeautifulSoup
@@ -49,7 +49,10 @@ def run(tier, seed):
             pass
     nsvariants = [None, {}, {'a': 'urn:a', 'b': 'urn:b'}, {'b': 'urn:b', 'a': 'urn:a'}, ct.Namespaces({'a': 'urn:a', 'b': 'urn:b'}),
                   {'a': 'urn:a'}, {'': 'urn:a', 'a': 'urn:a'}]
-    cvariants = [None, {':--cust': 'p'}, {':--cust': 'p', ':--d': 'div'}, {':--d': 'div', ':--cust': 'p'}, {':--cust': 'div'}]
+    cvariants = [None, {':--cust': 'p'}, {':--cust': 'p', ':--d': 'div'}, {':--d': 'div', ':--cust': 'p'}, {':--cust': 'div'},
+                 # the same outer definition over different inner ones (aliases that refer to aliases)
+                 {':--cust': ':--in.x', ':--in': 'p'}, {':--cust': ':--in.x', ':--in': 'div, span'},
+                 {':--cust': ':--in.x', ':--in': ':--deep > a', ':--deep': 'div'}]
 
     def keyof(p, ns, cu, fl):
         return (p, None if ns is None else frozenset(dict(ns).items()), None if cu is None else frozenset(cu.items()), fl)
@@ -62,6 +65,24 @@ def run(tier, seed):
                 if ':--' in p and cu is None:
                     cu = cvariants[1]
                 keys.append((p, ns, cu, rnd.choice([0, 0, sv.DEBUG])))
+    for p in pats[:40]:
+        for cu in cvariants[5:]:
+            keys.append((':--cust ' + p if rnd.random() < 0.5 else ':--cust', None, cu, 0))
+    # what each key must compile to: a parse from a purged state, before any history
+    expected = {}
+    for (p, ns, cu, fl) in keys:
+        k = keyof(p, ns, cu, fl)
+        if k in expected:
+            continue
+        sv.purge()
+        with warnings.catch_warnings():
+            warnings.simplefilter('ignore')
+            import io, contextlib
+            with contextlib.redirect_stdout(io.StringIO()):
+                try:
+                    expected[k] = cp.CSSParser(p, custom=cp.process_custom(ct.CustomSelectors(cu) if cu is not None else None), flags=fl).process_selectors()
+                except Exception as ex:
+                    expected[k] = ('exc', type(ex).__name__)
     # ---- histories of compile / purge: implementation vs the LRU model, and every result vs a fresh parse
     nhist = 6 if tier == 'quick' else 40
     for h in range(nhist):
@@ -107,7 +128,7 @@ def run(tier, seed):
                 warnings.simplefilter('ignore')
                 with contextlib.redirect_stdout(io.StringIO()):
                     fresh = cp.CSSParser(p, custom=cp.process_custom(ct.CustomSelectors(cu) if cu is not None else None), flags=fl).process_selectors()
-            if not (c.selectors == fresh and c.pattern == p and c.flags == fl and hash(c.selectors) == hash(fresh)):
+            if not (c.selectors == fresh and c.selectors == expected[k] and c.pattern == p and c.flags == fl and hash(c.selectors) == hash(fresh)):
                 ck.violation(f'compile({p!r}) returned a structure different from a fresh parse after {len(real)} calls',
                              {'pattern': p, 'namespaces': repr(ns), 'custom': cu, 'flags': fl, 'history_length': len(real)})
             if hit and k in held and held[k] is not c:
